@@ -15,6 +15,7 @@ CHECK = {
         "the sorted-map reference model in harness/storagex/model_test.go is the contract (immediate children, trailing '/' for sub-prefixes, sorted, no duplicates; ListPage = entries > after, cut at limit when limit > 0)",
         "file backend: names it cannot store are not generated (segments starting with '_', '.' segments, NUL, segments over 249 bytes, trailing-slash keys)",
         "live raft backend: keys are valid UTF-8 (they travel as protobuf strings; the encoding layer above raft enforces this in production)",
+        "a Put/Delete that returns an error (context already cancelled at that call, value above the configured max_value_size) is not 'the last value put': it changes nothing at once, inside a transaction, or when that transaction is committed afterwards; one that returns nil with a cancelled context took effect (layers that ignore the context)",
         "scan helpers: page size / limit 1 is not combined with trailing-slash keys (ListPage(dir, \"\", 1) = [\"\"] repeats for ever; the helper documents that it needs a larger page then)",
     ],
     "units": [
